@@ -44,6 +44,11 @@ def make_ops(sched, ops):
     it_items = [L(i) for i in range(1, 4)]
     shared['iter'] = optree.tree_iter(it_items, lambda x: (sched.point('is_leaf'), False)[1])
     shared['zobj'] = Z()
+    # a treespec shared by the threads whose hash / repr run user code (key __hash__, metadata __repr__)
+    hk = {U.KHook(1): 1, U.KHook(2): (2, 3)}
+    shared['hspec'] = optree.tree_structure(hk)
+    shared['hash_alone'] = hash(shared['hspec'])
+    shared['repr_alone'] = repr(shared['hspec'])
     results = [None] * len(ops)
 
     def pred(x):
@@ -67,6 +72,10 @@ def make_ops(sched, ops):
                 elif op == 'unreg':
                     optree.unregister_pytree_node(Z, namespace='thr')
                     results[i] = {'ok': True}
+                elif op == 'hash':
+                    h = hash(shared['hspec'])
+                    r = repr(shared['hspec'])
+                    results[i] = {'ok': True, 'same_as_alone': h == shared['hash_alone'] and r == shared['repr_alone']}
                 elif op == 'next':
                     got = []
                     for _ in range(3):
@@ -95,6 +104,7 @@ def replay(case):
     pre = case.get('pre', [])
     sched = Sched(len(ops))
     bodies, results, cleanup = make_ops(sched, ops)
+    U.HOOK = lambda kind, arg: sched.point(kind) if kind in ('key_hash',) else None
     threads = [threading.Thread(target=b, daemon=True) for b in bodies]
     for t in threads:
         t.start()
@@ -132,6 +142,7 @@ def replay(case):
             drain(0.25)
         drain(0.25)
     finished = len(ended) == len(ops)
+    U.HOOK = None
     cleanup()
     return {'ops': ops, 'releases': releases, 'order': order, 'finished': finished, 'results': results}
 
